@@ -50,6 +50,36 @@ func runC19(c *Ctx) {
 			one(in, p, "exhaustive")
 		}
 	}
+	// the same over units with a multi-byte rune (pieces that are not single bytes) and over raw bytes of one
+	units := func(alpha []string, n int) []string {
+		out := []string{""}
+		cur := []string{""}
+		for i := 0; i < n; i++ {
+			var next []string
+			for _, w := range cur {
+				for _, a := range alpha {
+					next = append(next, w+a)
+				}
+			}
+			out = append(out, next...)
+			cur = next
+		}
+		return out
+	}
+	ulen := 4
+	if c.Tier == "thorough" {
+		ulen = 5
+	}
+	for _, in := range units([]string{"a", "Ѿ"}, ulen) {
+		for _, p := range units([]string{"a", "Ѿ", "*"}, ulen+1) {
+			one(in, p, "exhaustive-multibyte")
+		}
+	}
+	for _, in := range units([]string{"\xd1", "\xbe"}, 4) {
+		for _, p := range units([]string{"\xd1", "\xbe", "*"}, 4) {
+			one(in, p, "exhaustive-rawbytes")
+		}
+	}
 	r.Exhaustive = true
 	// known regression witnesses
 	one("a", "a*a", "witness")
